@@ -103,13 +103,9 @@ type verifProtoShape struct {
 
 var verifProtoShapes = []verifProtoShape{
 	{1, [2]protoMetricsV1.SimpleFieldType{protoMetricsV1.SimpleFieldType_DELTA_SUM}, false, false, false},
-	{1, [2]protoMetricsV1.SimpleFieldType{protoMetricsV1.SimpleFieldType_LAST}, true, true, false},
-	{2, [2]protoMetricsV1.SimpleFieldType{protoMetricsV1.SimpleFieldType_Max, protoMetricsV1.SimpleFieldType_Min}, false, false, true},
-	{2, [2]protoMetricsV1.SimpleFieldType{protoMetricsV1.SimpleFieldType_FIRST, protoMetricsV1.SimpleFieldType_DELTA_SUM}, true, false, false},
-	{1, [2]protoMetricsV1.SimpleFieldType{protoMetricsV1.SimpleFieldType_Min}, false, true, true},
-	{2, [2]protoMetricsV1.SimpleFieldType{protoMetricsV1.SimpleFieldType_LAST, protoMetricsV1.SimpleFieldType_Max}, true, true, true},
-	{2, [2]protoMetricsV1.SimpleFieldType{protoMetricsV1.SimpleFieldType_DELTA_SUM, protoMetricsV1.SimpleFieldType_FIRST}, false, true, false},
-	{2, [2]protoMetricsV1.SimpleFieldType{protoMetricsV1.SimpleFieldType_Min, protoMetricsV1.SimpleFieldType_LAST}, false, false, false},
+	{2, [2]protoMetricsV1.SimpleFieldType{protoMetricsV1.SimpleFieldType_LAST, protoMetricsV1.SimpleFieldType_Max}, true, true, false},
+	{2, [2]protoMetricsV1.SimpleFieldType{protoMetricsV1.SimpleFieldType_Min, protoMetricsV1.SimpleFieldType_FIRST}, false, false, true},
+	{1, [2]protoMetricsV1.SimpleFieldType{protoMetricsV1.SimpleFieldType_Max}, true, true, true},
 }
 
 var verifProtoShapeIdx int
@@ -120,6 +116,8 @@ func verifProtoSymSpec() *verifProtoSpec {
 	s.vals = [2]byte{verifNondetByte("val"), verifNondetByte("val")}
 	// keys other than the enriched tag's key (that case is a choice of its own below)
 	verifAssume(s.keys[0] != 'e' && s.keys[1] != 'e')
+	// the order in which the two tags are sent is a choice of its own
+	verifAssume(s.keys[0] <= s.keys[1])
 	s.order = verifChoose("order", 2)
 	// shapes: number of fields and their types, histogram or not, enriched tag / namespace or not
 	// (every field type occurs in first and in second position, each with and without a histogram)
@@ -136,7 +134,7 @@ func verifProtoSymSpec() *verifProtoSpec {
 	s.histogram = sh.histogram
 	if s.histogram {
 		for i := range s.hv {
-			s.hv[i] = float64(verifRange("bucket", 1, 1000))
+			s.hv[i] = float64(3 + 2*i) // concrete: int->float conversions of symbolic counts are slow FP queries
 		}
 	}
 	s.ts = verifRange("ts", 1, 1<<41)
@@ -268,16 +266,34 @@ func verifC16Proto() {
 		verifProtoCheckStored(&sr.m, s)
 		verifAssert(sr.TagsHash() == row.m.KvsHash() && sr.NameHash() == row.m.NameHash(), "series identity is the same on the storage side")
 	}
-	// a fresh converter, the tags sent in the other order: same bytes (distinct keys)
+	verifReach("end")
+}
+
+// the order in which distinct tags are sent does not matter: same bytes, same series hash - also
+// when the second conversion runs on the converter that did the first
+func verifC16ProtoOrder() {
+	s := &verifProtoSpec{keys: [2]byte{verifNondetByte("key"), verifNondetByte("key")}, vals: [2]byte{verifNondetByte("val"), verifNondetByte("val")}, nFields: 1, ts: verifRange("ts", 1, 1<<41)}
+	verifAssume(s.keys[0] != s.keys[1] && s.keys[0] != 'e' && s.keys[1] != 'e')
+	s.types[0] = protoMetricsV1.SimpleFieldType_DELTA_SUM
+	s.values[0] = 1.5
+	s.enrichedTag = verifChoose("enrichedTag", 2) == 1
+	rc := verifProtoConverter(s)
+	var row, row2 BrokerRow
+	err := rc.ConvertTo(verifProtoMetric(s), &row)
+	verifAssert(err == nil, "a valid metric is accepted")
 	s2 := *s
-	s2.order = 1 - s.order
-	var row2 BrokerRow
-	err2 := verifProtoConverter(&s2).ConvertTo(verifProtoMetric(&s2), &row2)
+	s2.order = 1
+	rc2 := rc
+	if verifChoose("sameConverter", 2) == 0 {
+		rc2 = verifProtoConverter(&s2)
+	}
+	err2 := rc2.ConvertTo(verifProtoMetric(&s2), &row2)
 	verifAssert(err2 == nil, "a valid metric is accepted (other tag order)")
-	if err2 == nil && s.keys[0] != s.keys[1] {
-		var buf2 bytes.Buffer
-		_, _ = row2.WriteTo(&buf2)
-		verifAssert(bytes.Equal(sent, buf2.Bytes()), "the stored row does not depend on tag order nor on what the converter handled before")
+	if err == nil && err2 == nil {
+		var b1, b2 bytes.Buffer
+		_, _ = row.WriteTo(&b1)
+		_, _ = row2.WriteTo(&b2)
+		verifAssert(bytes.Equal(b1.Bytes(), b2.Bytes()), "the stored row does not depend on tag order nor on what the converter handled before")
 		verifAssert(row.m.KvsHash() == row2.m.KvsHash(), "series hash does not depend on tag order")
 	}
 	verifReach("end")
